@@ -272,4 +272,4 @@ def search(ctx, deep):
             "sample": {"program": tl.render_prog(gen_base(rr))}}, fails
 
 def replay(obj):
-    return [oracles.impl_models(t, 2) for t in obj["input"]]
+    return oracles.replay_record(obj, 2)
